@@ -351,6 +351,11 @@ var richForms = []richForm{
 		// aggregates called with an execution strategy over an array of the row itself
 		return gen.Pick(c.R, []string{"SELECT rid, SCOPED.AVG(scores) AS a, SCOPED.SUM(scores) AS s FROM t1", "SELECT rid, SCOPED.MIN(scores) AS lo, SCOPED.MAX(scores) AS hi, scores FROM t1", "SELECT rid, SCOPED.SUM(scores) AS s FROM t1 WHERE SCOPED.MAX(scores) >= 0"})
 	}},
+	{"plain.call-over-range", false, false, func(c *fw.Case, d *richDoc, vf string) string {
+		// calls that build on a part of a document array picked by a range: the part shares the array's memory
+		return gen.Pick(c.R, []string{"SELECT rid, CONCAT(`scores[(0:1)]`, s1, 'x') AS c FROM t1", "SELECT rid, ARRAY(`scores[(0:1)]`, n1) AS a, UNWIND(ARRAY(`scores[(0:1)]`, ARRAY(n1, 7))) AS u FROM t1",
+			"SELECT rid, CONCAT(`scores[(0:1)]`, 'new', 'hot') AS c, CHANGETYPE(`scores[(0:1)]`, 'array') AS k, FUSE(obj) FROM t1", "SELECT rid, CONCAT(`arr[(0:0)]`, obj, tags) AS c FROM t1"})
+	}},
 	{"plain.dual-alias-subquery", false, false, func(c *fw.Case, d *richDoc, vf string) string {
 		// a row-scoped subquery over dual under an alias: the row is the scope itself
 		return gen.Pick(c.R, []string{"SELECT (SELECT COUNT(*) AS n FROM t1) AS c, d.meta FROM dual d", "SELECT (SELECT rid FROM t1 WHERE n1 >= 0) AS ids FROM dual x", "SELECT d.meta, (SELECT ip FROM `<-meta`) AS m FROM dual d WHERE EXISTS (SELECT rid FROM t1)"})
